@@ -90,13 +90,16 @@ impl fmt::Debug for Response {
 }
 
 /// A cache for field names used in responses.
+///
+/// Since it lives as long as the connection, it also keeps the state of a response whose
+/// reception was interrupted (the second field), see the `Drop` impl of `ResponseBuilder`.
 #[derive(Clone, Debug)]
-pub(crate) struct ResponseFieldCache(HashSet<Arc<str>, ahash::RandomState>);
+pub(crate) struct ResponseFieldCache(HashSet<Arc<str>, ahash::RandomState>, ResponseState);
 
 impl ResponseFieldCache {
     /// Returns a new, empty cache.
     pub(crate) fn new() -> ResponseFieldCache {
-        ResponseFieldCache(HashSet::default())
+        ResponseFieldCache(HashSet::default(), ResponseState::Initial)
     }
 
     /// Insert a field name into the cache or retrieve a reference to an already existing entry.
@@ -131,10 +134,9 @@ enum ResponseState {
 
 impl<'a> ResponseBuilder<'a> {
     pub(crate) fn new(field_cache: &'a mut ResponseFieldCache) -> Self {
-        Self {
-            field_cache,
-            state: ResponseState::Initial,
-        }
+        // Continue a response that a previous, interrupted builder had already started
+        let state = mem::replace(&mut field_cache.1, ResponseState::Initial);
+        Self { field_cache, state }
     }
 
     pub(crate) fn parse(
@@ -252,6 +254,18 @@ impl<'a> ResponseBuilder<'a> {
                 error: Some(error),
             },
         }
+    }
+}
+
+impl Drop for ResponseBuilder<'_> {
+    /// Keep the already parsed part of an unfinished response.
+    ///
+    /// The builder is dropped mid-response when the future returned by `AsyncConnection::receive`
+    /// is cancelled (e.g. inside a `select!`) or a read fails. The lines consumed so far are gone
+    /// from the receive buffer, so without this they would be lost and the rest of the response
+    /// misread as a new one.
+    fn drop(&mut self) {
+        self.field_cache.1 = mem::replace(&mut self.state, ResponseState::Initial);
     }
 }
 
